@@ -187,7 +187,15 @@ func c10Records(in *c10Inst, doc string, each func(a, opt, ev int, rec map[strin
 						}
 					}
 				}
-				rec := map[string]interface{}{"opt": c10Opts[oi], "kind": ea.kind, "soft": ea.soft, "same": bytes.Equal(sa, sb),
+				// with Unsafe the raw HTML of a node is written as it stands in the source: the bytes of
+				// the node's own segments (for a block: its lines and closing line), nothing else
+				rawok := true
+				if c10Opts[oi] == "unsafe" && (ea.kind == "RawHTML" || ea.kind == "HTMLBlock") && len(sb) > 0 {
+					// (the insecure character U+0000 is written as U+FFFD: CommonMark 2.3)
+					want := bytes.ReplaceAll(c10RawOf(ea.node, ea.entering, src), []byte{0}, []byte("\uFFFD"))
+					rawok = bytes.Equal(bytes.TrimRight(sb, "\n"), bytes.TrimRight(want, "\n"))
+				}
+				rec := map[string]interface{}{"opt": c10Opts[oi], "kind": ea.kind, "soft": ea.soft, "same": bytes.Equal(sa, sb), "rawok": rawok,
 					"ph": lb.id("c: raw HTML omitted "), "nl": lb.id("t:\n"), "empty": lb.id("v:"),
 					"a": segTokens(lb, sa), "b": segTokens(lb, sb), "urls": urls}
 				ia, ioi, ii := a, oi, i
@@ -335,4 +343,27 @@ func runC10(c *Ctx) {
 		r := recs[i].(map[string]interface{})
 		c.Sample("step-shape", 5, map[string]interface{}{"opt": r["opt"], "kind": r["kind"], "a": r["a"], "b": r["b"], "doc": clip(docs[wits[i].doc], 80)})
 	}
+}
+
+// c10RawOf: the source bytes a raw HTML node writes at this event (inline: its segments; block:
+// its lines on entering and its closing line on leaving).
+func c10RawOf(n ast.Node, entering bool, src []byte) []byte {
+	var b bytes.Buffer
+	switch v := n.(type) {
+	case *ast.RawHTML:
+		for i := 0; entering && i < v.Segments.Len(); i++ {
+			seg := v.Segments.At(i)
+			b.Write(seg.Value(src))
+		}
+	case *ast.HTMLBlock:
+		// the lines are written when the block is entered, the closing line when it is left
+		for i := 0; entering && i < v.Lines().Len(); i++ {
+			seg := v.Lines().At(i)
+			b.Write(seg.Value(src))
+		}
+		if !entering && v.HasClosure() {
+			b.Write(v.ClosureLine.Value(src))
+		}
+	}
+	return b.Bytes()
 }
